@@ -21,6 +21,12 @@ VERIF = Path(__file__).resolve().parent.parent
 
 # pin set -> list of (file relative to the repo, qualified name)
 SETS: Dict[str, List[Tuple[str, str]]] = {
+    # the counting loop of result quantifiers (hand model Eql/Quant.v; the constraint classes themselves are translated)
+    "quant": [("src/krrood/entity_query_language/symbolic.py", q) for q in (
+        "ResultQuantifier._evaluate__", "ResultQuantifier._assert_satisfaction_of_quantification_constraints_",
+        "ResultQuantifier.__post_init__", "ResultQuantifier.evaluate", "ResultQuantifier._process_result_",
+        "The._evaluate__", "The.evaluate")]
+    + [("src/krrood/entity_query_language/quantify_entity.py", q) for q in ("an", "the")],
     "eql": [
         ("src/krrood/entity_query_language/symbolic.py", q) for q in (
             "Variable._evaluate__", "Literal.__init__", "DomainMapping._evaluate__",
